@@ -1126,14 +1126,15 @@ int sx127x_fsk_ook_set_bitrate(float bitrate, sx127x *device) {
   uint16_t bitrate_value;
   uint8_t bitrate_fractional;
   if (device->active_modem == SX127x_MODULATION_FSK) {
-    if (bitrate < 1200 || bitrate > 300000) {
+    // written so that NaN is refused as well
+    if (!(bitrate >= 1200 && bitrate <= 300000)) {
       return SX127X_ERR_INVALID_ARG;
     }
     uint32_t value = (uint32_t) (SX127x_OSCILLATOR_FREQUENCY * 16.0 / bitrate);
     bitrate_value = (value >> 4) & 0xFFFF;
     bitrate_fractional = value & 0x0F;
   } else if (device->active_modem == SX127x_MODULATION_OOK) {
-    if (bitrate < 1200 || bitrate > 25000) {
+    if (!(bitrate >= 1200 && bitrate <= 25000)) {
       return SX127X_ERR_INVALID_ARG;
     }
     bitrate_value = (uint16_t) (SX127x_OSCILLATOR_FREQUENCY / bitrate);
@@ -1148,7 +1149,8 @@ int sx127x_fsk_ook_set_bitrate(float bitrate, sx127x *device) {
 
 int sx127x_fsk_set_fdev(float frequency_deviation, sx127x *device) {
   CHECK_MODULATION(device, SX127x_MODULATION_FSK);
-  if (frequency_deviation < 600 || frequency_deviation > 200000) {
+  // written so that NaN is refused as well
+  if (!(frequency_deviation >= 600 && frequency_deviation <= 200000)) {
     return SX127X_ERR_INVALID_ARG;
   }
   uint16_t value = (uint16_t) (frequency_deviation / SX127x_FSTEP);
